@@ -9,17 +9,21 @@ output, so a disagreement is turned into "violates the property on x" or "model 
 """
 import itertools
 import json
+import random
+import re
 from collections import Counter
 from pathlib import Path
 
 from . import core
 
 PID = "C10"
+LOOKS = re.compile(r"\w+/[^\n]+")  # `looks_like_a_taxon` on names without newline
 # sorted for the code-point order; '!' '+' '-' '.' all sort before '/': "a!", "a+/k", "a-b/x"
 # sit between "a" and its descendants, "a/y-z" between "a/y" and "a/y/z"; other roots; "a/yz" and
 # "a/y-z" are SIBLINGS of "a/y" whose last segment extends "y" (string prefix, not path prefix).
 POOL = ["a", "a!", "a+/k", "a-b/x", "a/y", "a/y-z", "a/y/z", "a/yz", "b/a"]
 EDGES = ["a", "a-b", "a!", "b", "a.b", "ab", "a+", "x", "#", "a,b", "Z"]
+WORD_ROOTS = ["a", "b", "ab", "x", "Z", "flow"]  # roots matching \w+: the names look like taxa
 UNCLEAN_EDGES = EDGES + ["", ".", "..", " "]
 
 
@@ -45,18 +49,34 @@ class Impl:
             return {"exc": type(exc).__name__}
         return canon({"ok": [[t.name, list(t.spans.items())] for t in out]})
 
-    def to_taxa(self, scratch, taxa, idx):
-        """The same input through Taxonomy.to_taxa: one literal row per taxon name, one label per
-        (name, span), so that `acc` is exactly `taxa` and `sorted(acc.items())` does the sorting."""
-        path = Path(scratch) / f"c10-taxonomy-{idx}.tsv"
-        rows = ["Taxa\tLabels"] + [f"{n}\tlab_{i}" for i, (n, _) in enumerate(taxa)]
-        path.write_text("\n".join(rows) + "\n", encoding="utf-8")
-        labels = []
+    def labels_for(self, taxa):
+        """A taxonomy and a label list whose accumulation is exactly `taxa` — a deterministic function
+        of `taxa` (so that shrinking and replaying see the same labels): one literal row per taxon
+        name; a taxon whose name looks like a taxon (`word/...`) is, more often than not, ALSO hinted
+        under its own name, its spans split between the translated label and the hint; the labels
+        come in a shuffled order (hint before or after its translated namesake, descendants before
+        ancestors), and `to_taxa` must accumulate and sort."""
+        rng = random.Random("c10-labels-" + json.dumps(taxa))
+        rows, labels = ["Taxa\tLabels"], []
         for i, (n, b) in enumerate(taxa):
-            spans = []
-            for s, c in b:
-                spans += [self.Span(s, s, "p")] * c
-            labels.append(self.Label(f"lab_{i}", spans))
+            spans = [s for s, c in b for _ in range(c)]
+            rows.append(f"{n}\tlab_{i}")
+            if LOOKS.fullmatch(n) and rng.random() < 0.6:
+                rng.shuffle(spans)
+                k = rng.randint(0, len(spans))
+                labels.append([f"lab_{i}", spans[:k]])
+                labels.append([n, spans[k:]])
+            else:
+                labels.append([f"lab_{i}", spans])
+        rng.shuffle(labels)
+        return rows, labels
+
+    def to_taxa(self, scratch, taxa, idx):
+        """The same input through Taxonomy.to_taxa (see `labels_for`)."""
+        path = Path(scratch) / f"c10-taxonomy-{idx}.tsv"
+        rows, labels = self.labels_for(taxa)
+        path.write_text("\n".join(rows) + "\n", encoding="utf-8")
+        labels = [self.Label(L, [self.Span(s, s, "p") for s in sp]) for L, sp in labels]
         try:
             out = self.mt.Taxonomy(path).to_taxa(labels)
         except Exception as exc:  # noqa
@@ -64,6 +84,56 @@ class Impl:
         finally:
             path.unlink()
         return canon({"ok": [[t.name, [[k.start, v] for k, v in t.spans.items()]] for t in out]})
+
+
+def _default_to_taxa(self, labels):
+    """`Taxonomy().to_taxa(labels)` on the DEFAULT table: (what it feeds to deduplicated_taxa, its
+    result). labels = [[name, [span ids]]]."""
+    mk = lambda: [self.Label(L, [self.Span(s, s, "p") for s in sp]) for L, sp in labels]
+    can = lambda taxa: canon({"ok": [[t.name, [[k.start, v] for k, v in t.spans.items()]] for t in taxa]})
+    saved = self.mt.deduplicated_taxa
+    try:
+        self.mt.deduplicated_taxa = lambda taxa: taxa
+        raw = can(self.mt.Taxonomy().to_taxa(mk()))["ok"]
+    finally:
+        self.mt.deduplicated_taxa = saved
+    try:
+        out = can(self.mt.Taxonomy().to_taxa(mk()))
+    except Exception as exc:  # noqa
+        out = {"exc": type(exc).__name__}
+    return raw, out
+
+
+Impl.default_to_taxa = _default_to_taxa
+
+
+def default_label_lists(rng, n):
+    """Label lists for the default table producing `flow/exception/catch/` (trailing slash: the
+    optional group of the row does not take part), its sibling `flow/exception/catch/ValueError`,
+    and — through taxon-like labels — their ancestors."""
+    pool = ["try_except:Foo", "try_except:ValueError", "try_except:None", "try_except", "try_except:KeyError",
+            "try_raise:Foo", "try_raise:ValueError", "flow/exception/catch", "flow/exception", "flow/exception/raise",
+            "flow/exception/catch/", "addition_operator", "operator/arithmetic", "operator/arithmetic/addition"]
+    out = [[["try_except:Foo", [3]], ["try_except:ValueError", [3, 5]], ["flow/exception/catch", [3, 3]]],
+           [["try_except:Foo", [1]], ["try_except:ValueError", [1]]]]
+    for _ in range(n):
+        out.append([[rng.choice(pool), [rng.randint(0, 3) for _ in range(rng.randint(0, 3))]]
+                    for _ in range(rng.randint(1, 8))])
+    return out
+
+
+def random_trailing(rng):
+    """Clean names, some of them followed by one trailing `/` (next to the same name without it,
+    or alone), sorted."""
+    t = random_clean(rng, 7, 4, 3, 3, word_roots=rng.random() < 0.5)
+    out = {n: b for n, b in t}
+    for n, b in t:
+        r = rng.random()
+        if r < 0.35:
+            out[n + "/"] = [[s, rng.randint(1, 3)] for s in rng.sample(range(3), rng.randint(1, 3))]
+        elif r < 0.5:
+            out[n + "/"] = out.pop(n)
+    return [[n, out[n]] for n in sorted(out)]
 
 
 def nontrivial(taxa):
@@ -176,6 +246,7 @@ class Checker:
                         "signature": None,
                         "replay": {
                             "kind": "c10-case", "via": via, "stream": stream, "taxa": small,
+                            **({"to_taxa_rows_and_labels": self.impl.labels_for(small)} if via == "Taxonomy.to_taxa" else {}),
                             "impl": a3, "model": m3, "spec_on_impl_output": sp3,
                             "failed_clauses": [c for c in CLAUSES if "ok" in a3 and not sp3[c]] or ["raises"],
                             "original_case": t,
@@ -209,10 +280,10 @@ BAGS2 = [b for b in ([[0, c0]] * (c0 > 0) + [[1, c1]] * (c1 > 0)
                      for c0 in (0, 1, 2) for c1 in (0, 1, 2)) if b]
 
 
-def random_clean(rng, max_names, max_depth, max_count, n_spans):
+def random_clean(rng, max_names, max_depth, max_count, n_spans, word_roots=False):
     k = rng.randint(0, max_names)
     names = set()
-    roots = rng.sample(EDGES, rng.randint(1, 3))
+    roots = rng.sample(WORD_ROOTS if word_roots else EDGES, rng.randint(1, 3))
     while len(names) < k:
         depth = rng.randint(1, max_depth)
         parts = [rng.choice(roots)] + [rng.choice(EDGES[:7]) for _ in range(depth - 1)]
@@ -262,7 +333,9 @@ def run(ctx):
             "bx1: ALL subsets of the 9-name pool × one span × counts 1..2 (3^9 = 19683, exhaustive); "
             "bx2: all subsets of ≤3 (quick) / ≤4 (thorough) names × every non-empty bag over 2 spans × counts ≤ 2 "
             "(exhaustive); random deeper pools (several roots, punctuation sorting before '/', depth ≤ 5, counts ≤ 3, "
-            "3 spans); the same inputs through Taxonomy.to_taxa (sorting step); an unclean/unsorted stream outside the "
+            "3 spans); the same inputs through Taxonomy.to_taxa (sorting step, hints named like a translated taxon); names with "
+            "one trailing '/' (allowed by the hypotheses); label lists through the DEFAULT table producing "
+            "flow/exception/catch/; an unclean/unsorted stream outside the "
             "theorems' hypotheses (model must still agree, clauses not required)"
         )
         # 0. corpus
@@ -303,20 +376,44 @@ def run(ctx):
         # 4. through Taxonomy.to_taxa (unsorted accumulation order, sorted by the method)
         n_tt = 150 if quick else 3000
         scratch = ctx.scratch_dir()
-        tt_cases = []
+        tt_cases = [
+            # a regular label translated into T and a hint literally named T, a prefix of T present
+            [["flow/loop", [[5, 1], [20, 1]]], ["flow/loop/while", [[5, 1], [20, 1]]]],
+            [["flow/loop", [[5, 1]]], ["flow/loop/while", [[5, 2], [20, 1]]], ["flow/loop/while/x", [[20, 1]]]],
+            [["a/b", [[0, 2], [1, 1]]], ["a/b/c", [[0, 1], [1, 1], [2, 3]]]],
+        ]
         for i in range(n_tt):
-            t = random_clean(ctx.rng, 7, 4, 2, 2)
-            tt_cases.append(t)
+            tt_cases.append(random_clean(ctx.rng, 7, 4, 3, 3, word_roots=(i % 2 == 0)))
         counter = itertools.count()
 
         def via_to_taxa(t):
-            shuffled = list(t)
-            ctx.rng.shuffle(shuffled)
-            return impl.to_taxa(scratch, shuffled, next(counter))
+            return impl.to_taxa(scratch, t, next(counter))
 
-        # the model is fed the sorted list; to_taxa gets it shuffled and must sort it itself
+        # the model is fed the sorted raw bags; to_taxa gets shuffled labels (hints included) and must
+        # accumulate and sort them itself
         ck.batch("to_taxa", [t for t in tt_cases if all(" " not in n and "\t" not in n for n, _ in t)],
                  runner=via_to_taxa, via="Taxonomy.to_taxa")
+        hinted = sum(1 for t in tt_cases for L, _ in impl.labels_for(t)[1] if not L.startswith("lab_"))
+        ctx.cov["to_taxa_hint_labels_colliding_with_a_translation"] = hinted
+        # 4b. names with ONE trailing '/' (inside the weakened hypotheses: the clauses are evaluated)
+        n_tr = 1500 if quick else 30000
+        ck.batch("trailing-slash", [
+            [["flow/exception/catch", [[3, 2]]], ["flow/exception/catch/", [[3, 1]]],
+             ["flow/exception/catch/ValueError", [[3, 1], [5, 1]]]],
+            [["a", [[0, 1]]], ["a/", [[0, 1]]]], [["a/", [[0, 1]]], ["a/b", [[0, 1]]]],
+        ] + [random_trailing(ctx.rng) for _ in range(n_tr)])
+        # 4c. through the DEFAULT table: `try_except:Foo` -> `flow/exception/catch/`
+        lists = default_label_lists(ctx.rng, 40 if quick else 1500)
+        pre = {}
+        cases = []
+        for labels in lists:
+            raw, out = impl.default_to_taxa(labels)
+            pre[json.dumps(raw)] = out
+            cases.append(raw)
+            if any(n.endswith("/") for n, _ in raw):
+                ctx.dist("default-to_taxa:has-trailing-slash-taxon")
+        ck.batch("default-to_taxa", cases, runner=lambda t: pre.get(json.dumps(t)) or impl.dedup(t),
+                 via="Taxonomy().to_taxa (default table), input = what it feeds to deduplicated_taxa")
         # 5. unclean / unsorted / non-positive counts: outside the hypotheses, model must agree
         n_un = 3000 if quick else 40000
         ck.batch("unclean", [random_unclean(ctx.rng) for _ in range(n_un)])
@@ -352,6 +449,8 @@ def run(ctx):
         "C10_no_invention, C10_unshared_kept, C10_covered_lost: the three clauses, for every strictly sorted list of clean "
         "names (any roots, any characters) with positive-count bags",
         "C10_names_kept_in_order; C10_exec_forms (the Bool forms run by the driver are equivalent to the clauses)",
+        "C10_to_taxa: sorted(acc.items()) of Taxonomy.to_taxa is strictly sorted with positive dict bags, so the clauses hold "
+        "of to_taxa's result whenever the taxon names are admissible",
     ]
     ctx.cov["exercised_only"] = [
         "agreement of the Python function with the model (differential testing)",
@@ -364,7 +463,8 @@ def run(ctx):
         "dict insertion order of Counters is not observed (bags are compared as sorted item lists)",
     ]
     ctx.assumptions += [
-        "theorem hypotheses: names strictly increasing in code-point order (sorted keys of a dict), no empty or '.' segment, "
+        "theorem hypotheses: names strictly increasing in code-point order (sorted keys of a dict), no empty or '.' segment "
+        "except one trailing '/', "
         "bags with distinct keys and positive counts (what Counter.update produces); checked by the driver on every case",
         "spans are opaque hashable keys (the harness numbers them)",
     ]
